@@ -1,14 +1,15 @@
 import Okane.Spec.Import
 import Okane.Model.Literal
 import Okane.Lemmas.ImportReadback
+import Okane.Lemmas.ImportReadbackZero
 /-!
 # C15 — import emits ledger text that reads back as intended
 
 What is proved here is about the transaction `to_double_entry` builds (its exact shape, that it exists for
 every record, that numbers are carried digit for digit and only padded by the printer) and about the class
 `CleanText` of statement texts.  The read-back itself (printer then parser) is carried by the oracle on the
-real code; `C15_readback` (last section) proves it over the printer / parser models of C05, for records inside
-`CleanText` without signed zero, under precisions ≤ 28.
+real code; `C15_readback` / `C15_readback_ledger` (last section) prove it over the printer / parser models of C05, for
+every record inside `CleanText`, under precisions ≤ 28.
 -/
 namespace Okane.Import
 open Okane
@@ -356,26 +357,28 @@ example : Literal.displayRescale (fun _ => 2) ⟨false, 125, 1, none⟩ "CHF" = 
 `ImportCmd::run` prints every transaction with the configured precisions (`printTransactionP prec`, the printer of
 `Okane.Unparse` with a precision table; `printTransactionP_noPrec`, `printTransactionP_rescale` in
 `Lemmas/ImportReadback.lean`).  What the parser returns for that text is `readbackTxn prec tr`: the transaction built,
-with every number padded the way `display.rs::rescale` pads it and carrying the tag the literal scanner gives it
-(`readNum`: `plain` for four integer digits or more — `C07_print_exact`).  `C15_readback_number` says what that does
-to a number: nothing but padding.
+with every number padded the way `display.rs::rescale` pads it and as the literal scanner returns it
+(`readNum`: tag `plain` for four integer digits or more, no sign on a zero — `C07_print_exact`).
+`C15_readback_number` / `C15_readback_shape` say what that does to the transaction: nothing but padding.
 
-Conditions besides `CleanText`, each decidable:
-* `∀ c, prec c ≤ 28` — a configured precision beyond rust_decimal's maximal scale makes the printer write a number the
-  parser rejects (`C15_readback_prec_needed`: precision 29, amount `-0.1`);
-* `noSignedZero` — no number of the record is a zero carrying a minus sign *as it enters the tree*: the amount is not `-0`,
-  the counter-posting's number (the amount's or the transferred amount's magnitude with the opposite sign flag) is not
-  zero under a non-negative amount, balance / rates / charges are not `-0`.  A signed zero is printed `-0.00` and read back
-  as `0.00`: the tree read back is still `readbackTxn prec tr` on the witness (`C15_readback_zero_witness`, evaluated by the
-  kernel), but that tree no longer prints to the text that was read (`C15_signed_zero_not_fixed`), so the C05 round trip does
-  not apply.  `C15_readback_stmt` keeps the statement without this condition visible.
+* `C15_readback`, `C15_readback_ledger` — every record inside `CleanText`, every precision table `≤ 28`: the parser reads
+  the printed text back as `readbackTxn prec tr`, one transaction per record and nothing else.
+* The one condition besides `CleanText`, `∀ c, prec c ≤ 28`, is needed: a configured precision beyond rust_decimal's
+  maximal scale makes the printer write a number the parser rejects (`C15_readback_prec_needed`: precision 29, `-0.1`).
+* `C15_readback_wf` — if moreover no number of the record enters the tree as a signed zero (`noSignedZero`), the tree read
+  back satisfies `wfEntry` / `plainEntry` of C05 and prints to exactly the text it was read from (it is a fixed point of
+  `format`).  That condition is needed for this part: the record `0.00 CHF` gets the counter-posting `-0.00 CHF`, read back
+  as `0.00 CHF`, which prints differently (`C15_signed_zero_not_fixed`).  The read-back of such records is proved by the
+  relational round trip of `Lemmas/ImportReadbackZero.lean` instead of `C05_entry`.
 -/
 open Okane.Parse Okane.Unparse
 
 /-- a decimal that is not a zero with the sign flag set -/
 def okDec (d : Dec) : Bool := !(d.neg && d.mant == 0)
 
-/-- no number the record puts into the tree is a signed zero -/
+/-- no number the record puts into the tree is a signed zero: the amount is not `-0`, the counter-posting's number (the
+amount's or the transferred amount's magnitude under the opposite sign flag) is not a zero under a non-negative amount,
+balance / rates / charges are not `-0` -/
 def noSignedZero (t : Txn) : Bool :=
   okDec t.amount.value && okDec (counterAmount t).value &&
   (match t.balance with | some b => okDec b.value | none => true) &&
@@ -436,38 +439,89 @@ theorem C15_plainNums (t : Txn) (src : String) (tr : Transaction) (hz : noSigned
       hS _ z2, Bool.true_and, List.all_map]
     exact List.all_eq_true.mpr (fun c hc => hch c hc)
 
-/-- **C15_readback.**  For every statement record inside `CleanText` without signed zero, every imported account, every
-precision table within rust_decimal's scale range and every display-width function: `to_double_entry` returns a
-transaction `tr`; the tree `readbackTxn prec tr` (`tr` with its numbers padded as printed) is well formed and plain
-(`wfEntry`, `plainEntry` of C05) and the C05 printer prints it to exactly the text the importer writes for `tr` under the
-configured precisions; that text starts an entry and the entry parser, whatever follows the blank line the importer
-writes after it, consumes exactly that text and returns `readbackTxn prec tr`. -/
-theorem C15_readback (prec : String → Nat) (hprec : ∀ c, prec c ≤ 28) (w : List Char → Nat) (t : Txn) (src : String)
+/-- the tree built for ANY record carries no format tag on any number (`PrettyDecimal::unformatted`) -/
+theorem C15_untagged (t : Txn) (src : String) (tr : Transaction) (h : t.toDoubleEntry src = .ok tr) :
+    untaggedNums tr = true := by
+  rw [C15_tree t src] at h
+  simp only [Outcome.ok.injEq] at h
+  subst h
+  have hshown : ∀ a, allV (fun d _ => d.fmt.isNone) (shownAmount t a).amount = true ∧
+      allExchange (fun d _ => d.fmt.isNone) (shownAmount t a).lot.price = true ∧
+      allExchange (fun d _ => d.fmt.isNone) (shownAmount t a).cost = true := by
+    intro a
+    refine ⟨rfl, rfl, ?_⟩
+    simp only [shownAmount, rateFor]
+    cases AMap.get? t.rates a.commodity <;> rfl
+  have hS : ∀ a (acc : String) (cl : ClearState) (md : List Metadata),
+      allPosting (fun d _ => d.fmt.isNone)
+        { account := acc, clear := cl, amount := some (shownAmount t a), balance := none, metadata := md } = true := by
+    intro a acc cl md
+    obtain ⟨g1, g2, g3⟩ := hshown a
+    simp only [allPosting, g1, g2, g3, Bool.and_self]
+  have hsrcP : allPosting (fun d _ => d.fmt.isNone)
+      { account := src, clear := .uncleared, amount := some (shownAmount t t.amount),
+        balance := t.balance.map (fun b => VExpr.amt ⟨b.value.neg, b.value.mant, b.value.scale, none⟩ b.commodity),
+        metadata := [] } = true := by
+    obtain ⟨g1, g2, g3⟩ := hshown t.amount
+    simp only [allPosting, g1, g2, g3, Bool.and_self, Bool.true_and]
+    cases t.balance <;> rfl
+  simp only [untaggedNums, allTxn]
+  cases t.amount.value.neg with
+  | false =>
+    simp only [Bool.false_eq_true, if_false, List.all_cons, List.all_append, List.all_nil, Bool.and_true, hsrcP,
+      hS, Bool.true_and, List.all_map]
+    exact List.all_eq_true.mpr (fun c _ => hS _ _ _ _)
+  | true =>
+    simp only [if_true, List.all_cons, List.all_append, List.all_nil, Bool.and_true, hsrcP,
+      hS, Bool.true_and, List.all_map]
+    exact List.all_eq_true.mpr (fun c _ => hS _ _ _ _)
+
+private theorem built_clear (t : Txn) (src : String) (tr : Transaction) (htr : t.toDoubleEntry src = .ok tr) :
+    (tr.clear != .uncleared || notClearMarkStart tr.payee.toList) = true := by
+  have := C15_tree t src
+  simp only at this
+  rw [this] at htr
+  simp only [Outcome.ok.injEq] at htr
+  subst htr
+  rfl
+
+/-- **The full statement of the read-back**: every record inside `CleanText`, every precision table within
+rust_decimal's scale range, every display-width function. -/
+def C15_readback_stmt : Prop :=
+  ∀ (prec : String → Nat), (∀ c, prec c ≤ 28) → ∀ (w : List Char → Nat) (t : Txn) (src : String), CleanText t src = true →
+    ∃ tr, t.toDoubleEntry src = .ok tr ∧ StartsEntry (printTransactionP prec w tr) ∧
+      ∀ rest, parseLedgerEntry (printTransactionP prec w tr ++ '\n' :: rest) = .ok (.txn (readbackTxn prec tr)) ('\n' :: rest)
+
+/-- **C15_readback.**  For every statement record inside `CleanText`, every imported account, every precision table
+within rust_decimal's scale range and every display-width function: `to_double_entry` returns a transaction `tr`; the
+text the importer writes for it under the configured precisions starts an entry, and the entry parser, whatever follows
+the blank line the importer writes after it, consumes exactly that text and returns `readbackTxn prec tr` — `tr` with its
+numbers padded as printed.  (Signed zeros included: `-0.00` is read back as `0.00`.) -/
+theorem C15_readback : C15_readback_stmt := by
+  intro prec hprec w t src hclean
+  obtain ⟨tr, htr⟩ := C15_never_err t src
+  have h := readback_tree_all prec hprec w tr (C15_partial t src tr hclean htr) (C15_untagged t src tr htr)
+    (built_clear t src tr htr)
+  exact ⟨tr, htr, h.1, h.2⟩
+
+/-- **C15_readback_wf.**  If moreover the record puts no signed zero into the tree: the tree read back is well formed and
+plain (`wfEntry`, `plainEntry` of C05) and the C05 printer prints it to exactly the text the importer wrote — the
+importer's output is a fixed point of print-then-parse, tree for tree (`C05_entry` applies to it). -/
+theorem C15_readback_wf (prec : String → Nat) (hprec : ∀ c, prec c ≤ 28) (w : List Char → Nat) (t : Txn) (src : String)
     (hclean : CleanText t src = true) (hz : noSignedZero t = true) :
     ∃ tr, t.toDoubleEntry src = .ok tr ∧
       wfEntry (.txn (readbackTxn prec tr)) = true ∧ C05.plainEntry (.txn (readbackTxn prec tr)) = true ∧
       printTransactionP prec w tr = printTransaction w (readbackTxn prec tr) ∧
-      StartsEntry (printTransactionP prec w tr) ∧
-      ∀ rest, parseLedgerEntry (printTransactionP prec w tr ++ '\n' :: rest) =
-        .ok (.txn (readbackTxn prec tr)) ('\n' :: rest) := by
+      EntryRT w (.txn (readbackTxn prec tr)) := by
   obtain ⟨tr, htr⟩ := C15_never_err t src
   have hr := C15_partial t src tr hclean htr
   have hn := C15_plainNums t src tr hz htr
-  have hc : (tr.clear != .uncleared || notClearMarkStart tr.payee.toList) = true := by
-    have := C15_tree t src
-    simp only at this
-    rw [this] at htr
-    simp only [Outcome.ok.injEq] at htr
-    subst htr
-    rfl
-  obtain ⟨h1, h2⟩ := readableTree_wf prec hprec tr hr hn hc
-  obtain ⟨h3, h4⟩ := readback_tree prec hprec w tr hr hn hc
-  exact ⟨tr, htr, h1, h2, (readback_print prec hprec w tr hr hn).symm, h3, h4⟩
+  obtain ⟨h1, h2⟩ := readableTree_wf prec hprec tr hr hn (built_clear t src tr htr)
+  exact ⟨tr, htr, h1, h2, (readback_print prec hprec w tr hr hn).symm, C05.C05_entry w _ h1 h2⟩
 
 /-- **Nothing but padding.**  What `readbackTxn` does to a number `d` standing next to commodity `c`: the value is
 unchanged, the scale is never smaller and is `max scale (prec c)` whenever the padded mantissa fits 96 bits, the sign
-flag is kept on non-zero numbers; every other field of the transaction (dates, state, code, payee, comments, accounts,
-posting states, tags, the shape of every amount) is untouched. -/
+flag is kept on non-zero numbers. -/
 theorem C15_readback_number (prec : String → Nat) (d : PDec) (c : String) (hsc : d.scale ≤ 28) :
     (readbackNum prec d c).toRat = d.toRat ∧ d.scale ≤ (readbackNum prec d c).scale ∧
     (d.mant ≠ 0 → d.mant * 10 ^ (max d.scale (prec c) - d.scale) ≤ Literal.maxMant →
@@ -481,6 +535,8 @@ theorem C15_readback_number (prec : String → Nat) (d : PDec) (c : String) (hsc
   have : (Literal.displayRescale prec d c).mant ≠ 0 := fun e => h0 (k5.mp e)
   simp [readbackNum, readNum, k1, this]
 
+/-- every other field of the transaction (dates, state, code, payee, comments, accounts, posting states, tags, the shape
+of every amount) is untouched by `readbackTxn` -/
 theorem C15_readback_shape (prec : String → Nat) (tr : Transaction) :
     (readbackTxn prec tr).date = tr.date ∧ (readbackTxn prec tr).effectiveDate = tr.effectiveDate ∧
     (readbackTxn prec tr).clear = tr.clear ∧ (readbackTxn prec tr).code = tr.code ∧
@@ -497,52 +553,30 @@ theorem C15_readback_shape (prec : String → Nat) (tr : Transaction) :
   simp [readbackTxn, mapTxn, mapPosting]
 
 /-- **C15_readback_ledger**: one transaction per record, and nothing else.  For every list of records inside `CleanText`
-without signed zero the importer's loop returns one transaction per record, and the ledger parser reads the whole text
+the importer's loop (both models of it) returns one transaction per record, and the ledger parser reads the whole text
 `ImportCmd::run` writes (each transaction followed by an empty line) as exactly those transactions, padded as printed, in
 order. -/
 theorem C15_readback_ledger (prec : String → Nat) (hprec : ∀ c, prec c ≤ 28) (w : List Char → Nat) (ts : List Txn)
-    (src : String) (h : ∀ t ∈ ts, CleanText t src = true ∧ noSignedZero t = true) :
+    (src : String) (h : ∀ t ∈ ts, CleanText t src = true) :
     ∃ trs, toDoubleEntries src ts = .ok trs ∧ ledgerOf src ts = .ok trs ∧ trs.length = ts.length ∧
       parseEntries (importText prec w trs) = .ok (trs.map fun tr => Entry.txn (readbackTxn prec tr)) := by
   have hall : ∃ trs, toDoubleEntries src ts = .ok trs ∧ trs.length = ts.length ∧
-      ∀ tr ∈ trs, ReadableTree tr = true ∧ plainNums tr = true ∧
+      ∀ tr ∈ trs, ReadableTree tr = true ∧ untaggedNums tr = true ∧
         (tr.clear != .uncleared || notClearMarkStart tr.payee.toList) = true := by
     induction ts with
     | nil => exact ⟨[], rfl, rfl, by simp⟩
     | cons t rest ih =>
       obtain ⟨trs, e1, e2, e3⟩ := ih (fun x hx => h x (by simp [hx]))
-      obtain ⟨hcl, hz⟩ := h t (by simp)
+      have hcl := h t (by simp)
       obtain ⟨tr, htr⟩ := C15_never_err t src
       refine ⟨tr :: trs, by simp only [toDoubleEntries, htr, e1], by simp [e2], ?_⟩
       intro x hx
       simp only [List.mem_cons] at hx
       rcases hx with rfl | hx
-      · refine ⟨C15_partial t src _ hcl htr, C15_plainNums t src _ hz htr, ?_⟩
-        have := C15_tree t src
-        simp only at this
-        rw [this] at htr
-        simp only [Outcome.ok.injEq] at htr
-        subst htr
-        rfl
+      · exact ⟨C15_partial t src _ hcl htr, C15_untagged t src _ htr, built_clear t src _ htr⟩
       · exact e3 x hx
   obtain ⟨trs, e1, e2, e3⟩ := hall
-  exact ⟨trs, e1, by rw [ledgerOf_eq, e1], e2, readback_ledger prec hprec w trs e3⟩
-
-/-- **Kept visible**: the read-back for every record of `CleanText`, signed zeros included.  Not proved (the C05 round
-trip covers only trees that print the text that is read; `-0.00` is no such text), not refuted: on the zero-amount witness
-the parser model does return `readbackTxn prec tr` (`C15_readback_zero_witness`). -/
-def C15_readback_stmt : Prop :=
-  ∀ (prec : String → Nat), (∀ c, prec c ≤ 28) → ∀ (w : List Char → Nat) (t : Txn) (src : String), CleanText t src = true →
-    ∃ tr, t.toDoubleEntry src = .ok tr ∧
-      ∀ rest, parseLedgerEntry (printTransactionP prec w tr ++ '\n' :: rest) = .ok (.txn (readbackTxn prec tr)) ('\n' :: rest)
-
-/-- `C15_readback_stmt` restricted to records without signed zero is `C15_readback` -/
-theorem C15_readback_partial (prec : String → Nat) (hprec : ∀ c, prec c ≤ 28) (w : List Char → Nat) (t : Txn) (src : String)
-    (hclean : CleanText t src = true) (hz : noSignedZero t = true) :
-    ∃ tr, t.toDoubleEntry src = .ok tr ∧
-      ∀ rest, parseLedgerEntry (printTransactionP prec w tr ++ '\n' :: rest) = .ok (.txn (readbackTxn prec tr)) ('\n' :: rest) := by
-  obtain ⟨tr, h1, _, _, _, _, h6⟩ := C15_readback prec hprec w t src hclean hz
-  exact ⟨tr, h1, h6⟩
+  exact ⟨trs, e1, by rw [ledgerOf_eq, e1], e2, readback_ledger_all prec hprec w trs e3⟩
 
 /-! ### the conditions are needed; non-vacuity -/
 
@@ -567,6 +601,8 @@ def exZeroTxn : Txn := Txn.new ⟨2024, 1, 5⟩ "info line" ⟨⟨false, 0, 2⟩
 /-- `-0.1 CHF` -/
 def exSmallTxn : Txn := Txn.new ⟨2024, 1, 5⟩ "shop" ⟨⟨true, 1, 1⟩, "CHF"⟩
 
+theorem exPrec_le : ∀ c, exPrec c ≤ 28 := by intro c; simp only [exPrec]; split <;> omega
+
 example : CleanText exCleanTxn "Assets:Bank" = true ∧ noSignedZero exCleanTxn = true := by decide
 /- the text `C15_readback` speaks about, for `exCleanTxn` under `exPrec` and `widthStd` (`#eval String.ofList
 (printTransactionP exPrec widthStd (builtTree exCleanTxn))`; amounts in CHF are padded to three places):
@@ -589,27 +625,25 @@ theorem C15_readback_prec_needed :
     (parseEntries (importText exPrec29 widthStd [builtTree exSmallTxn])).isOk = false := by
   decide +kernel
 
-/-- **a signed zero is not a fixed point of print-then-read**: for the record `0.00 CHF` (inside `CleanText`) the
-counter-posting carries `-0.00`; the tree read back does not print to the text it was read from, so `wfEntry` fails
-for it and the C05 round trip does not apply. -/
+/-- **a signed zero is not a fixed point of print-then-read** (why `C15_readback_wf` needs `noSignedZero`): for the record
+`0.00 CHF` (inside `CleanText`) the counter-posting carries `-0.00`; the tree read back does not print to the text it was
+read from. -/
 theorem C15_signed_zero_not_fixed :
     CleanText exZeroTxn "Assets:Bank" = true ∧ noSignedZero exZeroTxn = false ∧
     (printTransaction widthStd (readbackTxn exPrec (builtTree exZeroTxn)) ==
       printTransactionP exPrec widthStd (builtTree exZeroTxn)) = false := by
   decide +kernel
 
-/-- … yet on this witness the parser model does return `readbackTxn prec tr` (evidence for `C15_readback_stmt`) -/
-theorem C15_readback_zero_witness : readsBack exPrec widthStd [builtTree exZeroTxn] = true := by
-  decide +kernel
-
-theorem exPrec_le : ∀ c, exPrec c ≤ 28 := by intro c; simp only [exPrec]; split <;> omega
-
--- `C15_readback_ledger` applied to two records (CJK display width)
-example : ∃ trs, toDoubleEntries "Assets:Bank" [exCleanTxn, exSmallTxn] = .ok trs ∧
-    ledgerOf "Assets:Bank" [exCleanTxn, exSmallTxn] = .ok trs ∧ trs.length = 2 ∧
+-- `C15_readback_ledger` applied to three records, one of them the zero amount (CJK display width)
+example : ∃ trs, toDoubleEntries "Assets:Bank" [exCleanTxn, exZeroTxn, exSmallTxn] = .ok trs ∧
+    ledgerOf "Assets:Bank" [exCleanTxn, exZeroTxn, exSmallTxn] = .ok trs ∧ trs.length = 3 ∧
     parseEntries (importText exPrec widthCjk trs) = .ok (trs.map fun tr => Entry.txn (readbackTxn exPrec tr)) :=
-  C15_readback_ledger exPrec exPrec_le widthCjk [exCleanTxn, exSmallTxn] "Assets:Bank" (by decide)
--- the same conclusion evaluated by the kernel on a small ledger
-example : readsBack exPrec widthCjk [builtTree exSmallTxn, builtTree exSmallTxn] = true := by decide +kernel
+  C15_readback_ledger exPrec exPrec_le widthCjk [exCleanTxn, exZeroTxn, exSmallTxn] "Assets:Bank" (by decide)
+-- the same conclusion evaluated by the kernel on a small ledger with the zero amount
+example : readsBack exPrec widthCjk [builtTree exSmallTxn, builtTree exZeroTxn] = true := by decide +kernel
+-- `C15_readback` applies to the zero amount and to `exCleanTxn`; `C15_readback_wf` applies to `exCleanTxn`
+example := C15_readback exPrec exPrec_le widthStd exZeroTxn "Assets:Bank" (by decide)
+example := C15_readback exPrec exPrec_le widthCjk exCleanTxn "Assets:Bank" (by decide)
+example := C15_readback_wf exPrec exPrec_le widthStd exCleanTxn "Assets:Bank" (by decide) (by decide)
 
 end Okane.Import
